@@ -31,7 +31,12 @@ impl Ctx {
     fn fails(&mut self, rf: &RunFile) -> Option<Violation> {
         self.tried += 1;
         std::fs::write(&self.tmp, serde_json::to_string(rf).unwrap()).ok()?;
-        let out = Command::new(&self.exe).arg("replay").arg(&self.tmp).arg("--quiet").output().ok()?;
+        let mut cmd = Command::new(&self.exe);
+        cmd.arg("replay").arg(&self.tmp).arg("--quiet");
+        if rf.flaky {
+            cmd.env("DST_PATIENCE_MS", "400");
+        }
+        let out = cmd.output().ok()?;
         if out.status.code() != Some(1) {
             return None;
         }
